@@ -56,7 +56,9 @@ def main(tier):
     items = []
     variants = [("plain", {}, {}), ("errno", {"faults": [{"site": 40, "errno": "EIO"}]}, {}), ("clamp", {}, {"max_io": 4096}), ("kill", {"kill_at": 55}, {}),
                 ("fiemap", {}, {"fiemap": "emulate", "fiemap_split": 4096}), ("ficlone", {}, {"ficlone": "emulate"}), ("cfr-absent", {}, {"cfr": "ENOSYS"}),
-                ("wake-any", {}, {"wake_any": True})]
+                ("wake-any", {}, {"wake_any": True}),
+                ("ustep-atomic", {"_sched": {"ustep_p": 0.3, "ustep_max": 100, "ustep_locks": 3, "ustep_after": 20, "ustep_hold": 4}}, {}),
+                ("ustep-blind", {"_sched": {"ustep_p": 0.1, "ustep_max": 600, "ustep_main": True}}, {})]
     for s in range(n):
         r = gen.rng_for(s, "selftest", 0)
         ops = _case(r)
@@ -65,7 +67,10 @@ def main(tier):
                 vname, pl, kern = variants[s % len(variants)]
                 inv = gen.mk_inv(["src"], "dst", driver=drv, workers=w, block_size=65536, r=True, fsync=True)
                 case = {"setup": ops, "steps": [{"inv": inv}], "kernel": kern}
-                plan = dict({"seed": s * 7919 + 1, "sched": gen.sched_plan(r)}, **pl)
+                pl = dict(pl)
+                sp = gen.sched_plan(r, ustep=0)
+                sp.update(pl.pop("_sched", {}))
+                plan = dict({"seed": s * 7919 + 1, "sched": sp}, **pl)
                 job = campaign.job_of(case, 0, plan, "none")
                 job["snap"] = {"pre": False, "post": False}
                 items.append({"tag": "%d/%s/%d/%s" % (s, drv, w, vname), "job": job})
